@@ -28,12 +28,28 @@ class St:
         self.now = z3.BitVec(f'now{sfx}', 64)
         self.usage = z3.BitVec(f'usage{sfx}', 64)
         self.with_policy = with_policy
+        # scalar fields of the store objects that this harness does not know by name (added by a change to /repo): discovered
+        # from the real constructors, threaded through summaries and histories like the known state components
+        self.extra = {}
+        self.extra_init = {}
+
+    def ensure_extra(self, key, init):
+        if key not in self.extra:
+            nm = 'x_' + '_'.join(key) + self.sfx
+            self.extra[key] = z3.Bool(nm) if z3.is_bool(init) else z3.BitVec(nm, init.size())
+            self.extra_init[key] = init
+        return self.extra[key]
+
+    def clone_extras_from(self, base):
+        for key, init in base.extra_init.items():
+            self.ensure_extra(key, init)
 
     def vars(self):
         v = []
         for i in range(self.K):
             v += [self.present[i], self.val[i], self.flags[i], self.cas[i], self.ts[i], self.ttl[i]]
         v += [self.cas_id, self.now, self.usage]
+        v += [self.extra[k] for k in sorted(self.extra)]
         return v
 
     def wellformed(self):
@@ -75,21 +91,60 @@ class World:
         self.map = new_map(E, st.K, records=recs, present=list(st.present))
         self.timer = SymTimer(st.now, clock_mode)
         self.timer_cell = E.alloc(self.timer)
-        ms = mk(E, 'MemoryStore', memory=self.map, timer=Ref(self.timer_cell), cas_id=st.cas_id)
+        self.extra_cells = {}
+        ms = self._construct('MemoryStore', [Ref(self.timer_cell)], dict(memory=self.map, timer=Ref(self.timer_cell), cas_id=st.cas_id))
         self.ms_cell = E.alloc(ms)
         top = Ref(self.ms_cell)
         self.policy_cell = None
         if policy == 'random':
-            rp = mk(E, 'RandomPolicy', store=Ref(self.ms_cell), memory_limit=memory_limit, memory_usage=st.usage)
+            rp = self._construct('RandomPolicy', [Ref(self.ms_cell), memory_limit],
+                                 dict(store=Ref(self.ms_cell), memory_limit=memory_limit, memory_usage=st.usage))
             self.policy_cell = E.alloc(rp)
             top = Ref(self.policy_cell)
         self.cache = top
-        self.memc_cell = E.alloc(mk(E, 'MemcStore', store=top))
+        self.memc_cell = E.alloc(self._construct('MemcStore', [top], dict(store=top)))
         self.memc = Ref(self.memc_cell)
-        self.handler_cell = E.alloc(mk(E, 'BinaryHandler', storage=Ref(self.memc_cell)))
+        self.handler_cell = E.alloc(self._construct('BinaryHandler', [Ref(self.memc_cell)], dict(storage=Ref(self.memc_cell))))
         self.handler = Ref(self.handler_cell)
         for a in val_axioms():
             E.assume(a)
+
+    def _construct(self, ty, args, known):
+        """build the object with the crate's own constructor (so that fields this harness does not know are initialised the
+        way the code initialises them), then put the harness' symbolic state into the fields it knows"""
+        E = self.E
+        names = E.structs[ty]
+        try:
+            obj = E.call(E.fn(ty, 'new'), list(args))
+        except (KeyError, Unsupported):
+            obj = None
+        vals = []
+        for i, n in enumerate(names):
+            if n in known:
+                vals.append(known[n])
+                continue
+            init = obj.fields[i] if obj is not None and i < len(obj.fields) else None
+            if init is not None and z3.is_expr(init) and (z3.is_bv(init) or z3.is_bool(init)):
+                vals.append(self.st.ensure_extra((ty, n), z3.simplify(init)))
+            else:
+                vals.append(init)
+        missing = set(known) - set(names)
+        if missing:
+            raise Unsupported(f'struct {ty} has no fields {missing} (has {names})')
+        return Agg(ty, vals)
+
+    def extras(self):
+        """current values of the discovered extra fields"""
+        E = self.E
+        out = {}
+        cells = {'MemoryStore': self.ms_cell, 'RandomPolicy': self.policy_cell, 'MemcStore': self.memc_cell, 'BinaryHandler': self.handler_cell}
+        for (ty, n) in self.st.extra:
+            c = cells.get(ty)
+            if c is None:
+                out[(ty, n)] = self.st.extra[(ty, n)]
+                continue
+            out[(ty, n)] = fld(E, E.heap[c], ty, n)
+        return out
 
     # ---- read the post-state back as terms
     def present(self, i):
